@@ -161,7 +161,7 @@ class WriteBack(WritePolicy):
 
     def get_keys_to_flush(self) -> list[str]:
         """Get all dirty keys."""
-        return list(self._dirty_keys)
+        return sorted(self._dirty_keys)
 
     def on_flush(self, keys: list[str]) -> None:
         """Remove flushed keys from dirty set."""
